@@ -649,8 +649,8 @@ func specialSegmentation(c *specialCtx) {
 			return
 		}
 		// the sanctioned corner: a run of several characters written onto the second cell of a wide character
-		if cs.Mode == 0 {
-			probe := Case{Mode: 0, Grid: cs.Grid, W: cs.W, H: cs.H, Items: []Item{in("all", data)}}
+		{
+			probe := Case{Mode: cs.Mode, Grid: cs.Grid, W: cs.W, H: cs.H, Items: []Item{in("all", data)}}
 			pr := runCase(&probe, d, runOpts{})
 			if pr.Sanctioned {
 				c.mu.Lock()
